@@ -99,10 +99,15 @@ func curSlot() *slot {
 	return &slots[c]
 }
 
+// setTable maps set ids to root handles.  A fixed array rather than a map:
+// in multi-task phases one task may create a set (Clone) while others use
+// different sets, and a Go map would make that a data race of the harness.
+type setTable [256]*template.Template
+
 // World is one universe of template sets built by a sequence of operations.
 type World struct {
 	c        *Case
-	sets     map[int]*template.Template
+	sets     setTable
 	disk     map[string]string
 	faultOps map[int]bool // nil: all faults of the case apply; else only for these op ids
 	noFaults bool
@@ -110,7 +115,7 @@ type World struct {
 }
 
 func newWorld(c *Case) *World {
-	return &World{c: c, sets: map[int]*template.Template{}, disk: c.Disk, fired: map[string]int{}}
+	return &World{c: c, disk: c.Disk, fired: map[string]int{}}
 }
 
 // fault returns the planned fault for the n-th event on seam during the
@@ -781,7 +786,7 @@ func (w *World) do(op *Op, res *Result) {
 		c, err := t.Clone()
 		classify(err, res)
 		if err == nil && c != nil {
-			if _, exists := w.sets[op.New]; !exists {
+			if w.sets[op.New] == nil {
 				// The clone's root handle is the clone of the parent's root
 				// handle, whatever member Clone was called on, so that "the
 				// set's root" names the same template in parent and clone.
